@@ -698,6 +698,42 @@ func genBatchFacts() {
 			})
 		}
 		l.p("def serverOrderChanTypeAssignments : Nat := %d", nAssign)
+		// what ParseRPCServerOrder (with its helpers) copies into the fixed-size node / multisig key arrays
+		var copies []string
+		if fd := findFunc(orderF, "ParseRPCServerOrder"); fd != nil {
+			for _, g := range batReach(fd, orderF, 2) {
+				loc := batLocals(g)
+				ast.Inspect(g.Body, func(n ast.Node) bool {
+					ce, ok := n.(*ast.CallExpr)
+					if !ok || len(ce.Args) != 2 {
+						return true
+					}
+					if id, ok := ce.Fun.(*ast.Ident); !ok || id.Name != "copy" {
+						return true
+					}
+					sl, ok := ce.Args[0].(*ast.SliceExpr)
+					if !ok {
+						return true
+					}
+					dst, ok := sl.X.(*ast.Ident)
+					if !ok || !strings.HasSuffix(strings.ToLower(dst.Name), "key") {
+						return true
+					}
+					// the method that produced the bytes ("SerializeCompressed"), else the expression itself
+					src := batResolve(ce.Args[1], loc)
+					if call, ok := src.(*ast.CallExpr); ok {
+						if sel, ok := call.Fun.(*ast.SelectorExpr); ok && len(call.Args) == 0 {
+							copies = append(copies, sel.Sel.Name)
+							return true
+						}
+					}
+					copies = append(copies, batOneLine(exprString(src)))
+					return true
+				})
+			}
+		}
+		sort.Strings(copies)
+		l.p("def serverOrderKeyCopies : List String := %s", leanStrList(copies))
 	}
 
 	l.p("end Pool.Gen.Batch")
